@@ -157,6 +157,25 @@ func checkC10(c *Ctx) {
 		c.Violate(Violation{What: "a command did not pass through verbatim, in order, exactly once (" + id + ")", Source: srcOf[fid],
 			Detail: map[string]interface{}{"output": outOf[fid]}})
 	}
+	// "inline text / moves() replaced by their label", wherever the command stands: whole files
+	// with such commands in every construct (if/elif/else, loops, switch cases and default, inline
+	// map scripts, AutoVar conditions), explored by the product with the data resolved
+	{
+		var cases []*RefCase
+		rejected := 0
+		nf := 80
+		if !c.Quick() {
+			nf = 2500
+		}
+		fr := NewRand(c.Seed*6007 + 10)
+		fileRefineCases(c, fr, nf, FileCfg{MaxTops: 3, Inline: true, AutoInline: true, MapScripts: true,
+			Kinds: []string{"script", "script", "mapscripts", "text"},
+			Ctl:   GenCfg{MaxDepth: 2, MaxStmts: 3, MaxLeaves: 3, Switches: true}}, "cd", &cases, &rejected)
+		st := RunRefine(c, cases, 6000, "a command (with inline text / moves() arguments) is not passed through exactly once, in order, with its data", nil)
+		states += st.States
+		c.Cov("product_cases", int64(st.Cases))
+		c.Cov("rejected_by_compiler", int64(rejected))
+	}
 	c.Cov("evaluations", int64(len(recs)))
 	c.Cov("distinct_nontrivial", int64(len(recs)))
 	c.CovSet("rule", "every argument of the TLC-enumerated family GenArgs.tla (1-2 token arguments and parenthesised forms over identifiers incl. multi-byte, decimal/hex/negative numbers, operators, keywords) is used at least once, at a rotating position of a 1-3 argument command, in straight-line scripts mixed with labels (with and without scope syntax) and commands whose only argument is local/global; a case is one script, distinct by construction")
